@@ -8986,6 +8986,13 @@ class SVG(Group):
         viewbox = values.get(SVG_ATTR_VIEWBOX)
         par = values.get(SVG_ATTR_PRESERVEASPECTRATIO)
         self.viewbox = Viewbox(viewbox, par) if viewbox is not None else None
+        if self.viewbox is not None and None in (
+            self.viewbox.x,
+            self.viewbox.y,
+            self.viewbox.width,
+            self.viewbox.height,
+        ):
+            self.viewbox = None  # An incomplete viewBox is no viewBox.
 
     def get_element_by_id(self, id):
         return self.objects.get(id)
